@@ -179,7 +179,8 @@ def s_assign(draw, tier=None):
     obs = [draw(obstacle(500 + i, net)) for i in range(draw(st.integers(1, 5)))]
     subset = draw(st.one_of(st.none(), st.lists(st.sampled_from([o["id"] for o in obs]), min_size=1, unique=True)))
     return {"net": net, "obs": obs, "subset": subset, "order": draw(st.sampled_from(["network-first",
-                                                                                     "obstacles-first"]))}
+                                                                                     "obstacles-first"])),
+            "explicit_times": draw(st.sampled_from([False, False, True]))}
 
 
 def build_scenario(net, obs, order="network-first"):
@@ -201,10 +202,16 @@ def check_assign(r, ctx):
     with warnings.catch_warnings():
         warnings.simplefilter("ignore")
         sc = build_scenario(net, obs, r["order"])
+        kw = {}
+        if r.get("explicit_times"):
+            # the scenario-wide list of time steps (it starts before and ends after some obstacles' horizons)
+            last = max([s["t"] for o in obs for s in [o["init"]] + (o["pred"]["traj"]["states"] if o.get("pred") else [])])
+            kw["time_steps"] = list(range(0, last + 2))
+            ctx.label("explicit-time-steps")
         if r["subset"] is None:
-            sc.assign_obstacles_to_lanelets()
+            sc.assign_obstacles_to_lanelets(**kw)
         else:
-            sc.assign_obstacles_to_lanelets(obstacle_ids=set(r["subset"]))
+            sc.assign_obstacles_to_lanelets(obstacle_ids=set(r["subset"]), **kw)
         nt, excuse = check_assignment(sc, obs, rings, ctx, "", None if r["subset"] is None else set(r["subset"]))
         # removal of contained obstacles never fails and leaves no trace in the registries
         for o in obs:
